@@ -1,9 +1,45 @@
-(** Property C10 — theorems only; proofs live in Proofs/. *)
-From Coq Require Import String List.
-From Zog Require Import Model.Val Model.Engine Spec.Sem Proofs.Refine.
+(** Property C10 — the issue map is well-formed and addresses every issue by its path. *)
+From Coq Require Import String List Bool.
+From Zog Require Import Model.Val Model.Engine Spec.Sem Proofs.Refine Proofs.ErrsP Proofs.FrontEndsP.
+Import ListNotations.
+Open Scope string_scope.
 
-(** The executable engine (flags, shared child context, mutable path stack, one issue log) computes
-    exactly the context-free semantics, for every schema, mode, input and destination. *)
+(** For every sequence of recorded issues: each appears exactly once, under the key equal to its
+    path ("$root" for the empty path) and under no other key, in recording order; "$first" holds
+    exactly the first one.  (Hypothesis: no issue's own path is the reserved key "$first".) *)
+Theorem C10_map_wf : forall l, Forall (fun i => ikey i <> "$first") l ->
+  (l = [] -> errs_map l = None)
+  /\ (forall k, k <> "$first" -> lookup_map (errs_map l) k = match at_key k l with [] => None | g => Some g end)
+  /\ (forall i r, l = i :: r -> lookup_map (errs_map l) "$first" = Some [i]).
+Proof. exact errs_map_spec. Qed.
+Print Assumptions C10_map_wf.
+
+(** the path: the chain of keys joined by '.', slice positions written [i] (keys non-empty) *)
+Theorem C10_paths : forall ks, Forall (fun k => is_empty k = false) ks -> render (rev ks ++ [""]) = join_path ks.
+Proof. exact render_pushes. Qed.
+Print Assumptions C10_paths.
+
+(** which key: the source's own tag, else `zog`, else the schema key *)
+Theorem C10_field_key : forall pv tags k,
+  snd (get_by_field pv tags k) =
+  match pv with
+  | PEmpty => k
+  | PMap tag _ => field_key tag tags k
+  | PUrl tag _ => field_key (Some tag) tags k
+  | PEnv _ => field_key (Some "env") tags k
+  end.
+Proof. exact provider_key. Qed.
+Print Assumptions C10_field_key.
+
+(** "at every nesting depth" is refuted by the code for the source-specific tag: recorded finding
+    C10/nested-source-tag (the nested field is keyed by its schema key, not by its json tag) *)
+Theorem C10_nested_source_tag_refuted :
+  map i_path (o_issues (run Parse nested_schema (DFactory (FProv (PMap (Some "json") [("inner", VMap [("first_name", VStr "b")])]))) nested_dest))
+  = ["inner.first"].
+Proof. exact nested_source_tag_refuted. Qed.
+Print Assumptions C10_nested_source_tag_refuted.
+
+(** the engine pushes and pops its path stack so that every issue carries the chain the semantics assigns *)
 Theorem C10_engine_computes_semantics : forall m s dat d, run m s dat d = sem_run m s dat d.
 Proof. exact run_is_sem_run. Qed.
 Print Assumptions C10_engine_computes_semantics.
